@@ -251,7 +251,9 @@ theorem C05_code_createComponent (d : Sem.CCC) :
 
 `Ioc.Progs.fac_populateComponent` is the syntax tree of `defaultFactory.populateComponent` (factory.go:252-283).  For every
 list of properties with their candidate lists and every behaviour of ResolveAfterInstantiation / doGetComponent / Inject it
-makes exactly the calls of `Sem.populateModel`, in that order: the instantiation-aware processors first; then property by
+makes exactly the calls of `Sem.populateModel`, in that order: every property node's `Injects` is reset to nil (so that a
+creation retried after a failure discovers its candidates anew instead of adding to the ones the failed attempt left —
+`d.stale`, which the result does not depend on), the instantiation-aware processors; then property by
 property, in the order of GetComponentProperties, every candidate in the order of `Injects` through doGetComponent — the
 first error ends everything — and only after ALL candidates of the property were obtained, `Inject` with exactly those
 components in that order (a property without candidates is not injected at all).  This is the order in which the machine's
@@ -265,7 +267,15 @@ theorem C05_code_populateComponent (d : Sem.PC) :
 /-- non-vacuity: two properties with candidates [5,6] and [7]; doGetComponent(7) fails: both candidates of the first point
     are obtained and injected, then 7 is tried and the error returned — the second point is never injected -/
 example : Sem.populateModel { n := 1, resolveOk := true, props := [[5, 6], [7]], getOk := (· != 7), injectOk := fun _ => true } =
-    ([.resolve, .get 5, .get 6, .inject 0 [5, 6], .get 7], false) := by decide
+    ([.reset 0, .reset 1, .resolve, .get 5, .get 6, .inject 0 [5, 6], .get 7], false) := by decide
+
+/-- a retried creation is populated exactly like a first one: what an earlier, failed attempt left in the property nodes
+    (the processors APPEND their discoveries to `Injects`) is neither obtained nor injected — for every leftover -/
+theorem C05_code_populate_ignores_leftovers (d : Sem.PC) (leftover : Nat → List Nat) :
+    ∃ out, Go.run (Sem.pcPrims { d with stale := leftover }) Progs.fac_populateComponent [.int d.n, .ref d.n 0] [] =
+        some (out, (Sem.populateModel d).1) ∧ out = (if (Sem.populateModel d).2 then .nil else Sem.errP) := by
+  have := Sem.populateComponent_sem { d with stale := leftover }
+  rwa [Sem.populateModel_stale] at this
 
 /-! ### the tie to the code: InitializeComponent and invokeInitMethods (regenerated)
 
